@@ -4,3 +4,6 @@ package reactive
 
 // verifWaitGroupAddWindow is a no-op outside of verification builds (see verif_on.go).
 func verifWaitGroupAddWindow() {}
+
+// verifSortedSetAddWindow is a no-op outside of verification builds (see verif_on.go).
+func verifSortedSetAddWindow() {}
